@@ -13,6 +13,7 @@
   driving amplitude/frequency.
 -/
 import Verif.Lemmas.C11
+import Verif.Lemmas.C11D
 
 namespace Verif.C11
 open Verif
@@ -418,5 +419,187 @@ theorem bias_correction_factor (n D : ℝ) (hn : 0 < n) :
   norm_num
   constructor <;> field_simp
 example : (0:ℝ) < 20 := by norm_num
+
+/-! # Deepening round D
+
+## The objective of `_fit_power_spectra` and the recovery of the generating parameters
+
+`chi2 psd n fs ps` is the sum of squares `curve_fit` is asked to minimise (and the reported
+`chi_squared`).  The optimiser itself (SciPy `trf`) is outside the model; what is proved is the
+mathematical content of "fitting a generated spectrum returns the generating parameters":
+the generating parameters are a global minimiser (value 0) and, inside the ordered box
+`0 < f_c < f_diode`, `0 ≤ α < 1`, `D > 0`, the ONLY zero of the objective. -/
+
+/-- the objective is a sum of squares -/
+theorem fit_objective_nonneg (psd : ℝ → ℝ) (n : ℝ) (fs ps : List ℝ) : 0 ≤ chi2 psd n fs ps :=
+  chi2_nonneg' psd n fs ps
+
+/-- it vanishes exactly when the candidate spectrum passes through every data point -/
+theorem fit_objective_zero_iff (psd : ℝ → ℝ) (n : ℝ) (hn : 0 < n) (fs ps : List ℝ)
+    (hp : ∀ x ∈ fs.zip ps, x.2 ≠ 0) :
+    chi2 psd n fs ps = 0 ↔ ∀ x ∈ fs.zip ps, 1 / psd x.1 = 1 / x.2 :=
+  chi2_zero_iff' psd n hn fs ps hp
+example : (0:ℝ) < 20 ∧ ∀ x ∈ [(1:ℝ), 2].zip [(3:ℝ), 4], x.2 ≠ 0 := by
+  refine ⟨by norm_num, ?_⟩
+  intro x hx
+  simp at hx
+  rcases hx with rfl | rfl <;> norm_num
+
+/-- on a noise-free spectrum `P_k = psd₀(f_k)` the generating model is a global minimiser of the
+    objective, with value 0 -/
+theorem fit_objective_minimised_by_generating (psd₀ psd : ℝ → ℝ) (n : ℝ) (hn : 0 < n)
+    (fs : List ℝ) (h0 : ∀ f ∈ fs, psd₀ f ≠ 0) :
+    chi2 psd₀ n fs (fs.map psd₀) = 0 ∧ chi2 psd₀ n fs (fs.map psd₀) ≤ chi2 psd n fs (fs.map psd₀) := by
+  have hz : chi2 psd₀ n fs (fs.map psd₀) = 0 := by
+    rw [chi2_zero_iff' psd₀ n hn]
+    · intro x hx
+      rw [(zip_map_snd psd₀ fs x hx).2]
+    · intro x hx
+      rw [(zip_map_snd psd₀ fs x hx).2]
+      exact h0 _ (zip_map_snd psd₀ fs x hx).1
+  exact ⟨hz, by rw [hz]; exact chi2_nonneg' ..⟩
+example : (0:ℝ) < 20 ∧ ∀ f ∈ [(1:ℝ), 2], lorentzDiodePsd f 1 1 2 (1 / 2) ≠ 0 :=
+  ⟨by norm_num, fun f _ => (ld_pos f 1 1 2 (1 / 2) one_pos one_pos two_pos).ne'⟩
+
+/-- the spectrum model the fit evaluates for a non-hydrodynamic model with a free diode filter is
+    Lorentzian × `g_diode` (this is the function the `c11.psd` / `c11.chi2` ops run) -/
+theorem spectrum_model_lorentz_diode (m : Mdl ℝ) (hh : m.o.hydro = false) (f fc D fd al : ℝ) :
+    m.psd .diode f fc D [fd, al] = .ok (lorentzDiodePsd f fc D fd al) ∧
+    m.psd .noFilter f fc D [] = .ok (lorentzianPsd f fc D * 1) := by
+  simp [Mdl.psd, Filt.eval, Mdl.physicalPsd, hh, lorentzDiodePsd, one_lit]
+example : (build oBulk).o.hydro = false := rfl
+
+/-- RECOVERY (Lorentzian × diode): on a noise-free spectrum containing four frequencies with
+    distinct squares, every zero of the objective inside `0 < f_c' < f_diode'`, `0 ≤ α'`, `D' > 0`
+    is the generating `(f_c, D, f_diode, α)` (which satisfies `f_c < f_diode`, `α < 1`: the
+    property's conditioning box has `f_c ≤ 0.3 f_diode`, `α ≤ 0.8`) -/
+theorem fit_recovery_unique_lorentz_diode (fs : List ℝ)
+    (n fc D fd al fc' D' fd' al' f1 f2 f3 f4 : ℝ) (hn : 0 < n)
+    (hfc : 0 < fc) (hord : fc < fd) (hD : 0 < D) (hal : 0 ≤ al) (hal1 : al < 1)
+    (hfc' : 0 < fc') (hord' : fc' < fd') (hal' : 0 ≤ al')
+    (m1 : f1 ∈ fs) (m2 : f2 ∈ fs) (m3 : f3 ∈ fs) (m4 : f4 ∈ fs)
+    (h12 : f1 ^ 2 ≠ f2 ^ 2) (h13 : f1 ^ 2 ≠ f3 ^ 2) (h14 : f1 ^ 2 ≠ f4 ^ 2) (h23 : f2 ^ 2 ≠ f3 ^ 2)
+    (h24 : f2 ^ 2 ≠ f4 ^ 2) (h34 : f3 ^ 2 ≠ f4 ^ 2)
+    (hchi : chi2 (fun f => lorentzDiodePsd f fc' D' fd' al') n fs
+      (fs.map fun f => lorentzDiodePsd f fc D fd al) = 0) :
+    fc' = fc ∧ D' = D ∧ fd' = fd ∧ al' = al := by
+  have hfd : 0 < fd := by linarith
+  have hpt := (chi2_zero_iff' _ n hn fs _ (by
+    intro x hx
+    rw [(zip_map_snd _ fs x hx).2]
+    exact (ld_pos _ fc D fd al hfc hD hfd).ne')).mp hchi
+  have key : ∀ f ∈ fs, lorentzDiodePsd f fc' D' fd' al' = lorentzDiodePsd f fc D fd al := by
+    intro f hf
+    have := hpt _ (mem_zip_map (fun f => lorentzDiodePsd f fc D fd al) fs f hf)
+    simpa using this
+  exact ld_identifiable' fc D fd al fc' D' fd' al' f1 f2 f3 f4 hfc hord hD hal hal1 hfc' hord' hal'
+    h12 h13 h14 h23 h24 h34 (key f1 m1) (key f2 m2) (key f3 m3) (key f4 m4)
+example : chi2 (fun f : ℝ => lorentzDiodePsd f 1 1 2 (1 / 2)) 20 [0, 1, 2, 3]
+    ([0, 1, 2, 3].map fun f : ℝ => lorentzDiodePsd f 1 1 2 (1 / 2)) = 0 :=
+  (fit_objective_minimised_by_generating _ (fun f => lorentzDiodePsd f 1 1 2 (1 / 2)) 20 (by norm_num) _
+    (fun f _ => (ld_pos f 1 1 2 (1 / 2) one_pos one_pos two_pos).ne')).1
+
+/-- the ordering `f_c' < f_diode'` in the previous theorem is NECESSARY: the swapped twin
+    `(f_c, D, f_diode, α) ↦ (f_diode, D·f_d²/f_c², f_c, α·f_c/f_d)` is a second global minimiser of
+    the same objective (it has `f_c' > f_diode'`, outside the conditioning box) -/
+theorem fit_twin_minimiser (fs : List ℝ) (n fc D fd al : ℝ) (hn : 0 < n)
+    (hfc : 0 < fc) (hD : 0 < D) (hfd : 0 < fd) :
+    chi2 (fun f => lorentzDiodePsd f fd (D * fd ^ 2 / fc ^ 2) fc (al * fc / fd)) n fs
+      (fs.map fun f => lorentzDiodePsd f fc D fd al) = 0 := by
+  have : (fun f => lorentzDiodePsd f fd (D * fd ^ 2 / fc ^ 2) fc (al * fc / fd))
+      = fun f => lorentzDiodePsd f fc D fd al := by
+    funext f; exact ld_twin' f fc D fd al hfc.ne' hfd.ne'
+  rw [this]
+  exact (fit_objective_minimised_by_generating _ (fun f => lorentzDiodePsd f fc D fd al) n hn fs
+    (fun f _ => (ld_pos f fc D fd al hfc hD hfd).ne')).1
+example : (0:ℝ) < 20 ∧ (0:ℝ) < 1 ∧ (0:ℝ) < 2 := by norm_num
+
+/-- RECOVERY (plain Lorentzian, fast sensor): two frequencies with distinct squares suffice -/
+theorem fit_recovery_unique_lorentzian (fs : List ℝ) (n fc D fc' D' f1 f2 : ℝ) (hn : 0 < n)
+    (hfc : 0 < fc) (hD : 0 < D) (hfc' : 0 < fc') (m1 : f1 ∈ fs) (m2 : f2 ∈ fs)
+    (h12 : f1 ^ 2 ≠ f2 ^ 2)
+    (hchi : chi2 (fun f => lorentzianPsd f fc' D') n fs (fs.map fun f => lorentzianPsd f fc D) = 0) :
+    fc' = fc ∧ D' = D := by
+  have hpos : ∀ f, 0 < lorentzianPsd f fc D := by
+    intro f
+    simp only [lorentzianPsd, RealLike.pi]
+    have := Real.pi_pos
+    have : 0 < f * f + fc * fc := add_pos_of_nonneg_of_pos (mul_self_nonneg f) (mul_pos hfc hfc)
+    positivity
+  have hpt := (chi2_zero_iff' _ n hn fs _ (by
+    intro x hx
+    rw [(zip_map_snd _ fs x hx).2]
+    exact (hpos _).ne')).mp hchi
+  have key : ∀ f ∈ fs, lorentzianPsd f fc' D' = lorentzianPsd f fc D := by
+    intro f hf
+    have := hpt _ (mem_zip_map (fun f => lorentzianPsd f fc D) fs f hf)
+    simpa using this
+  exact lorentzian_identifiable' fc D fc' D' f1 f2 hfc hfc' hD.ne' h12 (key f1 m1) (key f2 m2)
+example : chi2 (fun f : ℝ => lorentzianPsd f 1 1) 20 [0, 1]
+    ([0, 1].map fun f : ℝ => lorentzianPsd f 1 1) = 0 ∧ (0:ℝ) ^ 2 ≠ 1 ^ 2 := by
+  refine ⟨(fit_objective_minimised_by_generating (fun f : ℝ => lorentzianPsd f 1 1)
+    (fun f => lorentzianPsd f 1 1) 20 (by norm_num) _ ?_).1,
+    by norm_num⟩
+  intro f _
+  simp only [lorentzianPsd, RealLike.pi]
+  have := Real.pi_pos
+  have : 0 < f * f + 1 * 1 := add_pos_of_nonneg_of_pos (mul_self_nonneg f) (by norm_num)
+  positivity
+
+/-! ## The driving-peak estimator after the FFT -/
+
+/-- the three-point fit (what `np.polyfit(·, ·, 2)` returns on three points) reproduces a parabola -/
+theorem driving_peak_parabola_exact (x0 x1 x2 A B C : ℝ) (h01 : x0 ≠ x1) (h12 : x1 ≠ x2)
+    (h02 : x0 ≠ x2) :
+    parabola3 x0 x1 x2 (A * x0 ^ 2 + B * x0 + C) (A * x1 ^ 2 + B * x1 + C) (A * x2 ^ 2 + B * x2 + C)
+      = (A, B, C) := parabola3_exact' x0 x1 x2 A B C h01 h12 h02
+example : (1:ℝ) ≠ 2 ∧ (2:ℝ) ≠ 3 ∧ (1:ℝ) ≠ 3 := by norm_num
+
+/-- RECOVERY: when the three magnitudes around the peak lie on a Gaussian
+    `K·exp(−½((f − μ)/σ)²)` (the transform of the Gaussian-windowed sinusoid) with centre inside
+    the search range, the estimator answers, returns the centre `μ` exactly and the amplitude
+    `K·σ·√(2π)·δ` (for the window of the code `K = A·s√(2π)/2`, `σ = rate/(2π s)`, `δ = 2/rate`,
+    i.e. the amplitude `A` of the sinusoid) -/
+theorem driving_peak_gaussian_recovery (m : Nat)
+    (x0 x1 x2 K mu sigma guess search delta npts tp sw sw2 : ℝ)
+    (h01 : x0 ≠ x1) (h12 : x1 ≠ x2) (h02 : x0 ≠ x2) (hK : 0 < K) (hs : 0 < sigma)
+    (hlo : guess - search ≤ mu) (hhi : mu ≤ guess + search) :
+    ∃ r, drivePost m x0 x1 x2 (K * Real.exp (-(1 / 2) * ((x0 - mu) / sigma) ^ 2))
+        (K * Real.exp (-(1 / 2) * ((x1 - mu) / sigma) ^ 2))
+        (K * Real.exp (-(1 / 2) * ((x2 - mu) / sigma) ^ 2)) guess search delta npts tp sw sw2 = .ok r ∧
+      r.freq = mu ∧ r.amp = K * (sigma * Real.sqrt (2 * Real.pi)) * delta :=
+  drivePost_gaussian' m x0 x1 x2 K mu sigma guess search delta npts tp sw sw2 h01 h12 h02 hK hs hlo hhi
+example : (1:ℝ) ≠ 2 ∧ (2:ℝ) ≠ 3 ∧ (1:ℝ) ≠ 3 ∧ (0:ℝ) < 1 ∧ (2:ℝ) - 5 ≤ 2 ∧ (2:ℝ) ≤ 2 + 5 := by norm_num
+
+/-- the constants of the code's window: `K·σ·√(2π)·δ = A` for `K = A/2·s·√(2π)`, `σ = rate/(2π s)`,
+    `δ = 2/rate` (`s` = window standard deviation in samples) -/
+theorem driving_peak_window_constants (A s rate : ℝ) (hs : 0 < s) (hr : 0 < rate) :
+    (A / 2 * (s * Real.sqrt (2 * Real.pi))) * (rate / (2 * Real.pi * s) * Real.sqrt (2 * Real.pi))
+      * (2 / rate) = A := by
+  have hpi := Real.pi_pos
+  have h2 : Real.sqrt (2 * Real.pi) * Real.sqrt (2 * Real.pi) = 2 * Real.pi :=
+    Real.mul_self_sqrt (by positivity)
+  field_simp
+  linear_combination (A) * h2
+example : (0:ℝ) < 1 := one_pos
+
+/-- SOUNDNESS of an answer: whenever the estimator answers, the fitted parabola opens downwards,
+    the returned frequency is its vertex and lies inside the search range
+    `[guess − f_search, guess + f_search]`, the amplitude and its error follow the stated formulas
+    (`amp_std = ENBW·√|var − amp²/2|/√N`) -/
+theorem driving_peak_answer_sound (m : Nat)
+    (x0 x1 x2 a0 a1 a2 guess search delta npts tp sw sw2 : ℝ) (r : DriveEst ℝ)
+    (h : drivePost m x0 x1 x2 a0 a1 a2 guess search delta npts tp sw sw2 = .ok r) :
+    (r.p0, r.p1, r.p2) = parabola3 x0 x1 x2 (Real.log a0) (Real.log a1) (Real.log a2) ∧
+    r.p0 < 0 ∧ r.freq = -r.p1 / (2 * r.p0) ∧ guess - search ≤ r.freq ∧ r.freq ≤ guess + search ∧
+    r.amp = Real.exp (r.p2 - 0.25 * (r.p1 * r.p1) / r.p0 + 0.5 * Real.log (-Real.pi / r.p0)) * delta ∧
+    r.ampStd = npts * sw2 / (sw * sw) * Real.sqrt |tp - r.amp * r.amp / 2| / Real.sqrt npts ∧
+    r.maxIdx = m :=
+  drivePost_ok' m x0 x1 x2 a0 a1 a2 guess search delta npts tp sw sw2 r h
+example : ∃ r, drivePost 1 1 2 3 (1 * Real.exp (-(1 / 2) * ((1 - 2) / 1) ^ 2))
+    (1 * Real.exp (-(1 / 2) * ((2 - 2) / 1) ^ 2)) (1 * Real.exp (-(1 / 2) * ((3 - 2) / 1) ^ 2))
+    2 5 1 1 1 1 1 = .ok r :=
+  (driving_peak_gaussian_recovery 1 1 2 3 1 2 1 2 5 1 1 1 1 1 (by norm_num) (by norm_num) (by norm_num)
+    one_pos one_pos (by norm_num) (by norm_num)).imp fun _ h => h.1
 
 end Verif.C11
